@@ -9,6 +9,7 @@ import (
 	"net"
 	"os"
 	"sort"
+	"strings"
 	"sync"
 	"syscall"
 	"time"
@@ -307,8 +308,8 @@ func (c *Conn) Ops() []Op {
 }
 
 func (c *Conn) Read(b []byte) (int, error) {
+	c.logOp("read", len(b))
 	n, err := c.rd.read(b)
-	c.logOp("read", n)
 	if err == net.ErrClosed {
 		err = &net.OpError{Op: "read", Net: "tcp", Source: c.local, Addr: c.remote, Err: net.ErrClosed}
 	}
@@ -316,8 +317,8 @@ func (c *Conn) Read(b []byte) (int, error) {
 }
 
 func (c *Conn) Write(b []byte) (int, error) {
+	c.logOp("write", len(b))
 	n, err := c.wr.write(b)
-	c.logOp("write", n)
 	if err == net.ErrClosed {
 		err = &net.OpError{Op: "write", Net: "tcp", Source: c.local, Addr: c.remote, Err: net.ErrClosed}
 	}
@@ -426,7 +427,35 @@ type Net struct {
 	TCPLikeConns  bool // hand TCPLike wrappers to the system
 	AutoDial      bool // complete dials immediately with success
 	nextPort      int
+	// TimeoutAddrs: dials to these addresses hang for DialTimeout and then fail with a timeout.
+	TimeoutAddrs map[string]bool
+	DialTimeout  time.Duration
+	sleeping     int
+	dials        int
+	// LogSystemOps turns on operation logging for system-side ends of new connections.
+	LogSystemOps bool
 }
+
+// Dials reports how many outbound dials were requested so far.
+func (n *Net) Dials() int { n.mu.Lock(); defer n.mu.Unlock(); return n.dials }
+
+// FindByRemote returns the system-side end whose remote address is addr (nil if none).
+func (n *Net) FindByRemote(addr string) *Conn {
+	n.mu.Lock()
+	defer n.mu.Unlock()
+	for _, c := range n.conns {
+		if string(c.remote) == addr && strings.HasPrefix(c.label, "srv(") {
+			return c
+		}
+	}
+	return nil
+}
+
+// OpCount returns the number of logged operations.
+func (c *Conn) OpCount() int { c.mu.Lock(); defer c.mu.Unlock(); return len(c.ops) }
+
+// SleepingDials reports how many dials are waiting for their timeout.
+func (n *Net) SleepingDials() int { n.mu.Lock(); defer n.mu.Unlock(); return n.sleeping }
 
 // New creates the network and registers its action source with the kernel.
 func New(k *kernel.K) *Net {
@@ -569,6 +598,7 @@ func (l *Listener) Connect(label string, from string) *Conn {
 		return nil
 	}
 	h, s := l.net.Pair(label, "srv("+label+")", l.net.ephemeral(from), l.addr)
+	s.LogOps = l.net.LogSystemOps
 	l.mu.Lock()
 	l.queue = append(l.queue, l.net.Wrap(s))
 	l.cond.Broadcast()
@@ -647,7 +677,23 @@ func (n *Net) DialFunc(from string) func(network, addr string) (net.Conn, error)
 func (n *Net) dial(from, addr string) (net.Conn, error) {
 	n.mu.Lock()
 	auto := n.AutoDial
+	n.dials++
+	hang := n.TimeoutAddrs[addr]
+	d := n.DialTimeout
+	if hang {
+		n.sleeping++
+	}
 	n.mu.Unlock()
+	if hang {
+		if d == 0 {
+			d = 30 * time.Second
+		}
+		time.Sleep(d)
+		n.mu.Lock()
+		n.sleeping--
+		n.mu.Unlock()
+		return nil, &net.OpError{Op: "dial", Net: "tcp", Addr: Addr(addr), Err: &dialError{"i/o timeout", true}}
+	}
 	if auto {
 		return n.complete(from, addr)
 	}
